@@ -26,7 +26,7 @@ class Runner:
         for s in stmts:
             if not curs:
                 break
-            if len(curs) > 1 and (isinstance(s, (ast.While, ast.For, ast.Try)) or len(curs) > getattr(self.ex.c, 'max_paths', self.MAX_PATHS) or self.has_comprehension(s)):
+            if len(curs) > 1 and (isinstance(s, (ast.While, ast.For, ast.Try)) or (len(curs) > getattr(self.ex.c, 'max_paths', self.MAX_PATHS) and not isinstance(s, (ast.Return, ast.Raise))) or self.has_comprehension(s)):
                 curs = [self.join_states(None, curs)]
             nxt = []
             for cur in curs:
@@ -227,20 +227,39 @@ class Runner:
         return [Outcome('raise', st, exc=name, val=val, site='%s@%d' % (k, line))]
 
     # ------------------------------------------------------------------ control flow
-    def s_If(self, s, st):
+    def branch(self, test, st):
+        """evaluate a condition by path splitting: returns [(state, truth)], exceptional forks go to ex.pending.
+        `a and b` / `a or b` / `not a` are decided operand by operand (short circuit), so no state merging is needed"""
         ex = self.ex
-        c = ex.truthy(st, ex.ev(s.test, st))
-        pend = self.drain()
-        c = z3.simplify(c)
+        if isinstance(test, ast.BoolOp):
+            is_and = isinstance(test.op, ast.And)
+            out = []
+            work = [(st, 0)]
+            while work:
+                s0, k = work.pop()
+                for s1, t1 in self.branch(test.values[k], s0):
+                    if t1 != is_and or k == len(test.values) - 1:
+                        out.append((s1, t1))
+                    else:
+                        work.append((s1, k + 1))
+            return out
+        if isinstance(test, ast.UnaryOp) and isinstance(test.op, ast.Not):
+            return [(s1, not t1) for s1, t1 in self.branch(test.operand, st)]
+        c = z3.simplify(ex.truthy(st, ex.ev(test, st)))
         if z3.is_true(c):
-            return pend + self.block(s.body, st)
+            return [(st, True)]
         if z3.is_false(c):
-            return pend + self.block(s.orelse, st)
+            return [(st, False)]
         a = st.fork(); a.assume(c)
         b = st.fork(); b.assume(z3.Not(c))
-        oa = self.block(s.body, a)
-        ob = self.block(s.orelse, b)
-        return pend + oa + ob
+        return [(a, True), (b, False)]
+
+    def s_If(self, s, st):
+        outs = []
+        for s1, truth in self.branch(s.test, st):
+            outs.extend(self.drain())
+            outs.extend(self.block(s.body if truth else s.orelse, s1))
+        return self.drain() + outs
 
     def s_Try(self, s, st):
         ex = self.ex
@@ -612,7 +631,8 @@ class Runner:
         body_st = st.fork(); body_st.assume(c)
         exit_st = st.fork(); exit_st.assume(z3.Not(c))
         v0 = ex.spec_val(variant, body_st, old=ex.entry) if variant else None
-        ex.prove('cover/loop-body/%d' % k, body_st.pc, z3.BoolVal(False), kind='cover', detail='loop %d body reachable' % k)
+        if k not in ex.c.dead_loops:
+            ex.prove('cover/loop-body/%d' % k, body_st.pc, z3.BoolVal(False), kind='cover', detail='loop %d body reachable' % k)
         bouts = self.block(s.body, body_st)
         after_break = []
         for o in bouts:
@@ -723,7 +743,8 @@ class Runner:
             body_st.assume(z3.Select(z3.Select(ex.harr(body_st, '$dhas'), dict_ref), el.t))
         self.assign(s.target, el, body_st)
         outs += self.drain()
-        ex.prove('cover/loop-body/%d' % k, body_st.pc, z3.BoolVal(False), kind='cover', detail='loop %d body reachable' % k)
+        if k not in ex.c.dead_loops:
+            ex.prove('cover/loop-body/%d' % k, body_st.pc, z3.BoolVal(False), kind='cover', detail='loop %d body reachable' % k)
         bouts = self.block(s.body, body_st)
         after_break = []
         gh2 = dict(gh); gh2['loop_i'] = Val(mk_i(ki + 1), 'int')
